@@ -575,7 +575,7 @@ func Run(ctx *core.Ctx) {
 		wg.Wait()
 		ctx.Logf("round %d/%d (%s build) done: sequences=%d expiries=%d violations=%d", round+1, rounds, kind, ctx.Counter("sequences"), ctx.Counter("expiries_observed"), ctx.Violations())
 	}
-	ctx.Set("max_expiry_latency_after_t_send_plus_T_ms", e.maxLatMs)
+	ctx.Set("max_delay_until_first_absent_observation_ms_includes_client_poll_gaps", e.maxLatMs)
 	if racePrefix != "" {
 		ctx.Set("race_reports_side_observation", len(srv.RaceReports(racePrefix)))
 	}
